@@ -32,6 +32,8 @@ type Ctx struct {
 	points  []point
 	cost    int
 	pruned  bool
+	own     map[uint64]bool // keys first offered by this very execution (a repeat is a cycle, not coverage)
+	Cycles  int
 	User    interface{} // scratch for the harness
 	Outcome string      // set by the body: terminal outcome class (for distinct-outcome statistics)
 }
@@ -98,6 +100,16 @@ func (c *Ctx) Key(k string) {
 	h := fnv.New64a()
 	h.Write([]byte(k))
 	hk := h.Sum64()
+	if c.own == nil {
+		c.own = map[uint64]bool{}
+	}
+	if c.own[hk] {
+		// the execution returned to a state it has been in itself: that is a cycle (potential
+		// livelock), never "already covered" — let the body's own horizon decide
+		c.Cycles++
+		return
+	}
+	c.own[hk] = true
 	e := c.ex
 	sh := &e.seen[hk%uint64(len(e.seen))]
 	sh.mu.Lock()
